@@ -23,10 +23,10 @@ type ent =
 
 let ids_of s = if s = "-" || s = "" then [] else List.map int_of_string (String.split_on_char ',' s)
 let tok_ids l = if l = [] then "-" else String.concat "," (List.map string_of_int l)
-let nn i = n_of_z (Z.of_int i)
-let zz i = z_of_zz (Z.of_int i)
-let int_of_n x = Z.to_int (z_of_n x)
-let int_of_zc x = Z.to_int (zz_of_z x)
+let nn i = n_of_z (ZA.of_int i)
+let zz i = z_of_zz (ZA.of_int i)
+let int_of_n x = ZA.to_int (z_of_n x)
+let int_of_zc x = ZA.to_int (zz_of_z x)
 
 let parse_ops groups = Array.of_list (List.map (fun g -> match g with
   | ["N"; _; peer; _; ids] -> ON (int_of_string peer, 0, ids_of ids)
@@ -73,7 +73,7 @@ let eval inp obs =
     let rec go j = if j >= n then None else match ents.(j) with P (t, _, _) -> Some t | _ -> go (j + 1) in go (i + 1) in
   let do_step t ev = let (s', rq) = step true cfg !st (zz t) ev in st := s'; rq in
   let tick t = (match timer_due !st with
-    | Some due -> chan_since := int_of_zc due; ignore (do_step (max t (int_of_zc due)) ETick)
+    | Some due -> chan_since := min t (int_of_zc due); ignore (do_step (max t (int_of_zc due)) ETick)
     | None -> ()) in
   (* choose the map-iteration oracle of rescheduleFetch so that the due time explains the next pass *)
   let with_scan i t mk =
@@ -128,8 +128,11 @@ let eval inp obs =
        | _ -> out.(i) <- "r:!not-a-received")
     | P (t, all, ints) ->
       slog.(i) <- [LPass (zz t, List.map nn all, List.map nn ints)];
+      (* the loop reads the clock a little before the harness stamps the callback, so the real
+         due time may be slightly earlier than the model's *)
       (match timer_due !st with
-       | Some due when int_of_zc due <= t + 1 -> tick t
+       | Some due when int_of_zc due <= t + tol -> tick t
+       | Some due when int_of_zc due <= t + 3 * tol -> indet := true; tick t
        | _ -> ());
       if not (timer_chan !st) then
         out.(i) <- Printf.sprintf "p:!unexpected(model-timer:%s)"
@@ -157,7 +160,7 @@ let eval inp obs =
         end
       end
     | Q (t, peer, ids) ->
-      (match List.find_opt (fun (_, te, p, l, m) -> not !m && p = peer && l = ids && te <= t + 1 && t <= te + req_window) !pending with
+      (match List.find_opt (fun (_, te, p, l, m) -> not !m && p = peer && l = ids && te <= t + 1) !pending with
        | Some (j, te, _, _, m) -> m := true; out.(i) <- toks.(i);
          slog.(j) <- slog.(j) @ [LReq (zz te, nn peer, List.map nn ids)]
        | None -> out.(i) <- Printf.sprintf "q:!unexpected:%d:%s" peer (tok_ids ids);
